@@ -1,4 +1,730 @@
 package main
 
-func cmdCheck(args []string) int  { return 2 }
-func cmdReplay(args []string) int { return 2 }
+import (
+	"bufio"
+	"encoding/json"
+	"fmt"
+	"os"
+	"os/exec"
+	"path/filepath"
+	"sort"
+	"strconv"
+	"strings"
+	"sync"
+	"time"
+
+	"verif/symgo/interp"
+	"verif/symgo/smt"
+)
+
+// Job is one harness exploration inside a property check.
+type Job struct {
+	Name     string           // label in reports (defaults to Func)
+	Pkg      string           // package pattern relative to the repository, e.g. ./metrics
+	Func     string           // harness function
+	GoArch   string           // optional GOARCH for loading (portable bodies)
+	Params   map[string]int64 // harness parameters
+	Sched    bool
+	LoopCap  int
+	MaxPaths int
+	QTimeout int      // ms
+	Reach    []string // reachability witnesses that must be hit on some path
+	NoReplay bool     // native replay impossible (engine-only observation); reason in Note
+	Note     string
+	Bounds   string // human-readable bounds of this job
+}
+
+type Check struct {
+	ID          string
+	Level       string
+	Quick       []Job
+	Thorough    []Job
+	Assumptions []string
+	Funcs       []string // informational: main functions encoded
+}
+
+type knownFinding struct {
+	kind     string // known | fixed
+	property string
+	harness  string
+	assert   string
+	conds    []string
+	desc     string
+	raw      string
+}
+
+func loadKnown() []knownFinding {
+	f, err := os.Open(filepath.Join(verifDir(), "known_findings.txt"))
+	if err != nil {
+		return nil
+	}
+	defer f.Close()
+	var out []knownFinding
+	sc := bufio.NewScanner(f)
+	for sc.Scan() {
+		line := strings.TrimSpace(sc.Text())
+		if line == "" || strings.HasPrefix(line, "#") {
+			continue
+		}
+		k := knownFinding{raw: line}
+		switch {
+		case strings.HasPrefix(line, "known:"):
+			k.kind = "known"
+			line = strings.TrimPrefix(line, "known:")
+		case strings.HasPrefix(line, "fixed:"):
+			k.kind = "fixed"
+			line = strings.TrimPrefix(line, "fixed:")
+		default:
+			continue
+		}
+		if j := strings.Index(line, "::"); j >= 0 {
+			k.desc = strings.TrimSpace(line[j+2:])
+			line = line[:j]
+		}
+		for _, f := range strings.Fields(line) {
+			switch {
+			case strings.HasPrefix(f, "property="):
+				k.property = f[9:]
+			case strings.HasPrefix(f, "harness="):
+				k.harness = f[8:]
+			case strings.HasPrefix(f, "assert="):
+				k.assert = f[7:]
+			case strings.HasPrefix(f, "when="):
+				k.conds = append(k.conds, strings.Split(f[5:], ",")...)
+			}
+		}
+		out = append(out, k)
+	}
+	return out
+}
+
+func tapeLookup(tape []interp.TapeEntry, name string) (uint64, bool) {
+	for _, e := range tape {
+		if e.Name == name {
+			return e.Val, true
+		}
+	}
+	return 0, false
+}
+
+func condHolds(tape []interp.TapeEntry, cond string) bool {
+	for _, op := range []string{">=", "<=", "!=", "="} {
+		if j := strings.Index(cond, op); j > 0 {
+			name, rhs := cond[:j], cond[j+len(op):]
+			want, err := strconv.ParseUint(rhs, 0, 64)
+			if err != nil {
+				return false
+			}
+			got, ok := tapeLookup(tape, name)
+			if !ok {
+				return false
+			}
+			switch op {
+			case ">=":
+				return got >= want
+			case "<=":
+				return got <= want
+			case "!=":
+				return got != want
+			default:
+				return got == want
+			}
+		}
+	}
+	return false
+}
+
+func (k knownFinding) matches(prop, harness string, f interp.Failure) bool {
+	if k.kind != "known" || k.property != prop {
+		return false
+	}
+	if k.harness != "" && k.harness != harness {
+		return false
+	}
+	if k.assert != "" && k.assert != f.ID {
+		return false
+	}
+	for _, c := range k.conds {
+		if !condHolds(f.Tape, c) {
+			return false
+		}
+	}
+	return true
+}
+
+type jobReport struct {
+	Job      string            `json:"job"`
+	Harness  string            `json:"harness"`
+	Bounds   string            `json:"bounds,omitempty"`
+	Params   map[string]int64  `json:"params,omitempty"`
+	Result   *interp.RunResult `json:"result"`
+	Replayed int               `json:"replayed"`
+	Agreed   int               `json:"agreed"`
+	Note     string            `json:"note,omitempty"`
+}
+
+func cmdCheck(args []string) int {
+	if len(args) < 1 {
+		fmt.Fprintln(os.Stderr, "usage: symgo check <property> [quick|thorough]")
+		return 2
+	}
+	id := args[0]
+	tier := "quick"
+	if len(args) > 1 {
+		tier = args[1]
+	}
+	if t := os.Getenv("VERIF_TIER"); t != "" && len(args) < 2 {
+		tier = t
+	}
+	seed := 0
+	if s := os.Getenv("VERIF_SEED"); s != "" {
+		seed, _ = strconv.Atoi(s)
+	}
+	ck, ok := checks[id]
+	if !ok {
+		fmt.Fprintln(os.Stderr, "no check registered for", id)
+		return 2
+	}
+	jobs := ck.Quick
+	if tier == "thorough" {
+		jobs = append(append([]Job{}, ck.Quick...), ck.Thorough...)
+		if len(ck.Thorough) > 0 && ck.Thorough[0].Name == "!replace" {
+			jobs = ck.Thorough[1:]
+		}
+	}
+	only := os.Getenv("VERIF_ONLY") // debugging aid: run a single job
+	t0 := time.Now()
+	known := loadKnown()
+	// load once per GOARCH
+	byArch := map[string][]string{}
+	for _, j := range jobs {
+		if only != "" && j.Func != only && j.Name != only {
+			continue
+		}
+		seen := false
+		for _, p := range byArch[j.GoArch] {
+			if p == j.Pkg {
+				seen = true
+			}
+		}
+		if !seen {
+			byArch[j.GoArch] = append(byArch[j.GoArch], j.Pkg)
+		}
+	}
+	loadedBy := map[string]*loaded{}
+	for arch, pats := range byArch {
+		l, err := load(pats, arch)
+		if err != nil {
+			fmt.Fprintf(os.Stderr, "INCONCLUSIVE property=%s: load failed: %v\n", id, err)
+			writeEvidence(id, tier, seed, ck, nil, time.Since(t0), 0, []string{"load failed: " + err.Error()})
+			return 2
+		}
+		loadedBy[arch] = l
+	}
+	var reports []jobReport
+	violations, knownHits := 0, 0
+	var inconclusive []string
+	printedKnown := map[string]bool{}
+	replayDir := filepath.Join(verifDir(), "replays", id)
+	os.MkdirAll(replayDir, 0755)
+	nReplay := 0
+	for _, j := range jobs {
+		if only != "" && j.Func != only && j.Name != only {
+			continue
+		}
+		name := j.Name
+		if name == "" {
+			name = j.Func
+		}
+		l := loadedBy[j.GoArch]
+		params := map[string]int64{"seed": int64(seed)}
+		for k, v := range j.Params {
+			params[k] = v
+		}
+		cfg := interp.Config{Workers: 16, Sched: j.Sched, LoopCap: j.LoopCap, MaxPaths: j.MaxPaths, QueryTimeoutMS: j.QTimeout, Params: params, KeepScripts: 0}
+		if tier == "thorough" {
+			cfg.KeepScripts = 40
+			if cfg.QueryTimeoutMS == 0 {
+				cfg.QueryTimeoutMS = 120000
+			}
+		}
+		res := interp.Explore(l.prog, l.pkgs[j.Pkg], j.Func, cfg)
+		rep := jobReport{Job: name, Harness: res.Harness, Bounds: j.Bounds, Params: j.Params, Result: res, Note: j.Note}
+		fmt.Printf("[%s] %s: paths=%d queries=%d (unknown %d) solver=%.1fs wall=%.1fs proved=%d failures=%d\n", id, name, res.Paths, res.Queries, res.QUnknown, res.SolverSeconds, res.WallSeconds, sumMap(res.AssertsProved), len(res.Failures))
+		for _, m := range res.Inconclusive {
+			inconclusive = append(inconclusive, name+": "+m)
+		}
+		for _, w := range j.Reach {
+			if res.Reached[w] == 0 {
+				inconclusive = append(inconclusive, fmt.Sprintf("%s: vacuous: reachability witness %q not hit on any path", name, w))
+			}
+		}
+		if len(j.Reach) == 0 && len(res.Reached) == 0 {
+			inconclusive = append(inconclusive, name+": vacuous: no reachability witness hit")
+		}
+		// native replay of failures (distinct assertion ids x known-finding class) and of sample paths
+		rp := newReplayer(j, l.pkgs[j.Pkg].Pkg.Name(), replayDir)
+		type pending struct {
+			f     interp.Failure
+			known *knownFinding
+		}
+		var pend []pending
+		seenSig := map[string]int{}
+		for _, f := range res.Failures {
+			var kf *knownFinding
+			for k := range known {
+				if known[k].matches(id, j.Func, f) {
+					kf = &known[k]
+					break
+				}
+			}
+			sig := f.Kind + "|" + f.ID
+			if kf != nil {
+				sig += "|" + kf.raw
+			}
+			if seenSig[sig] >= 2 {
+				continue
+			}
+			seenSig[sig]++
+			pend = append(pend, pending{f, kf})
+		}
+		for _, p := range pend {
+			nReplay++
+			path := filepath.Join(replayDir, fmt.Sprintf("%s-%d.json", j.Func, nReplay))
+			writeReplayFile(path, id, j, p.f)
+			confirmed, why := true, "not replayed natively: "+j.Note
+			if !j.NoReplay {
+				confirmed, why = rp.replay(path, p.f)
+				rep.Replayed++
+				if confirmed {
+					rep.Agreed++
+				}
+			}
+			switch {
+			case !confirmed:
+				inconclusive = append(inconclusive, fmt.Sprintf("%s: counterexample for %s did not reproduce natively (%s): engine/model problem, not reported as violation; see %s", name, p.f.ID, why, path))
+			case p.known != nil:
+				knownHits++
+				if !printedKnown[p.known.raw] {
+					printedKnown[p.known.raw] = true
+					fmt.Printf("KNOWN-FINDING: property=%s %s [%s %s]\n", id, p.known.desc, j.Func, p.f.ID)
+				}
+			default:
+				violations++
+				fmt.Printf("VIOLATION property=%s replay=%s\n", id, path)
+				fmt.Printf("  harness=%s assertion=%s %s\n  input: %s\n", j.Func, p.f.ID, p.f.Msg, tapeString(p.f.Tape, 400))
+			}
+		}
+		if !j.NoReplay && len(res.Samples) > 0 {
+			nS := 1
+			if tier == "thorough" {
+				nS = len(res.Samples)
+			}
+			for k := 0; k < nS && k < len(res.Samples); k++ {
+				s := res.Samples[k]
+				path := filepath.Join(replayDir, fmt.Sprintf("%s-sample%d.json", j.Func, k))
+				writeReplayFile(path, id, j, interp.Failure{Kind: "sample", Tape: s.Tape})
+				ok, why := rp.replaySample(path)
+				rep.Replayed++
+				if ok {
+					rep.Agreed++
+				} else {
+					inconclusive = append(inconclusive, fmt.Sprintf("%s: conformance: native run of a passing path disagrees (%s); see %s", name, why, path))
+				}
+			}
+		}
+		rp.cleanup()
+		reports = append(reports, rep)
+	}
+	// cross-check of assertion queries on the other solvers (thorough)
+	var xc *crossCheck
+	if tier == "thorough" {
+		xc = runCrossCheck(reports)
+		if xc.Disagree > 0 {
+			inconclusive = append(inconclusive, fmt.Sprintf("solver cross-check: %d disagreements", xc.Disagree))
+		}
+	}
+	writeEvidence(id, tier, seed, ck, reports, time.Since(t0), violations, inconclusive, xc)
+	for _, m := range inconclusive {
+		fmt.Printf("INCONCLUSIVE property=%s %s\n", id, m)
+	}
+	fmt.Printf("[%s] %s: violations=%d known-findings=%d inconclusive=%d wall=%.1fs\n", id, tier, violations, knownHits, len(inconclusive), time.Since(t0).Seconds())
+	if violations > 0 {
+		return 1
+	}
+	if len(inconclusive) > 0 {
+		return 2
+	}
+	return 0
+}
+
+func sumMap(m map[string]int) int {
+	n := 0
+	for _, v := range m {
+		n += v
+	}
+	return n
+}
+
+func tapeString(t []interp.TapeEntry, max int) string {
+	var parts []string
+	for _, e := range t {
+		parts = append(parts, fmt.Sprintf("%s=%d", e.Name, e.Val))
+	}
+	s := strings.Join(parts, " ")
+	if len(s) > max {
+		s = s[:max] + "..."
+	}
+	return s
+}
+
+type replayFile struct {
+	Property string             `json:"property"`
+	Pkg      string             `json:"pkg"`
+	Func     string             `json:"func"`
+	Params   map[string]int64   `json:"params"`
+	Kind     string             `json:"kind"`
+	Assert   string             `json:"assert"`
+	Msg      string             `json:"msg,omitempty"`
+	Tape     []interp.TapeEntry `json:"tape"`
+	Trace    []string           `json:"trace,omitempty"`
+}
+
+func writeReplayFile(path, id string, j Job, f interp.Failure) {
+	rf := replayFile{Property: id, Pkg: j.Pkg, Func: j.Func, Params: j.Params, Kind: f.Kind, Assert: f.ID, Msg: f.Msg, Tape: f.Tape, Trace: f.Trace}
+	b, _ := json.MarshalIndent(rf, "", " ")
+	os.WriteFile(path, b, 0644)
+}
+
+// ---------------------------------------------------------------- native replay
+
+type replayer struct {
+	job     Job
+	pkgName string
+	dir     string
+	bin     string
+	built   bool
+	buildErr string
+	work    string
+}
+
+func newReplayer(j Job, pkgName, dir string) *replayer {
+	return &replayer{job: j, pkgName: pkgName, dir: dir}
+}
+
+func goEnv() []string {
+	return append(os.Environ(), "GOFLAGS=-mod=mod", "GOPROXY=off", "GOSUMDB=off", "GOTOOLCHAIN=local")
+}
+
+// build compiles the harness package natively (go test -c with the overlay).
+func (r *replayer) build() bool {
+	if r.built {
+		return r.buildErr == ""
+	}
+	r.built = true
+	work, err := os.MkdirTemp(r.dir, "build")
+	if err != nil {
+		r.buildErr = err.Error()
+		return false
+	}
+	r.work = work
+	ov, err := overlayFiles()
+	if err != nil {
+		r.buildErr = err.Error()
+		return false
+	}
+	test := fmt.Sprintf("package %s\n\nimport (\n\t\"testing\"\n\n\t\"github.com/netflix/rend/zz_verif/rt\"\n)\n\nfunc TestZZReplay(t *testing.T) {\n\trt.Start()\n\tdefer rt.Finish()\n\trt.Run(%s)\n}\n", r.pkgName, r.job.Func)
+	testPath := filepath.Join(work, "zz_replay_test.go")
+	os.WriteFile(testPath, []byte(test), 0644)
+	ov[filepath.Join(repoDir(), strings.TrimPrefix(r.job.Pkg, "./"), "zz_replay_test.go")] = testPath
+	ovb, _ := json.Marshal(map[string]interface{}{"Replace": ov})
+	ovPath := filepath.Join(work, "overlay.json")
+	os.WriteFile(ovPath, ovb, 0644)
+	r.bin = filepath.Join(work, "replay.test")
+	cmd := exec.Command("go", "test", "-c", "-vet=off", "-overlay", ovPath, "-o", r.bin, r.job.Pkg)
+	cmd.Dir = repoDir()
+	cmd.Env = goEnv()
+	out, err := cmd.CombinedOutput()
+	if err != nil {
+		r.buildErr = "native build failed: " + err.Error() + ": " + lastLines(string(out), 6)
+		return false
+	}
+	return true
+}
+
+func lastLines(s string, n int) string {
+	l := strings.Split(strings.TrimSpace(s), "\n")
+	if len(l) > n {
+		l = l[len(l)-n:]
+	}
+	return strings.Join(l, " | ")
+}
+
+func (r *replayer) run(tapePath string) (string, bool) {
+	params, _ := json.Marshal(r.job.Params)
+	cmd := exec.Command(r.bin, "-test.run", "^TestZZReplay$", "-test.timeout", "60s", "-test.v")
+	cmd.Dir = filepath.Join(repoDir(), strings.TrimPrefix(r.job.Pkg, "./"))
+	if _, err := os.Stat(cmd.Dir); err != nil {
+		cmd.Dir = repoDir()
+	}
+	cmd.Env = append(goEnv(), "VERIF_TAPE="+tapePath, "VERIF_PARAMS="+string(params))
+	done := make(chan struct{})
+	var out []byte
+	go func() { out, _ = cmd.CombinedOutput(); close(done) }()
+	select {
+	case <-done:
+		return string(out), false
+	case <-time.After(90 * time.Second):
+		if cmd.Process != nil {
+			cmd.Process.Kill()
+		}
+		<-done
+		return string(out), true
+	}
+}
+
+// replay re-runs a counterexample natively; confirmed = the same failure shows.
+func (r *replayer) replay(tapePath string, f interp.Failure) (bool, string) {
+	if !r.build() {
+		return false, r.buildErr
+	}
+	out, timedOut := r.run(tapePath)
+	os.WriteFile(strings.TrimSuffix(tapePath, ".json")+".native.txt", []byte(out), 0644)
+	if strings.Contains(out, "VERIF-REPLAY-DIVERGED") {
+		return false, "tape diverged"
+	}
+	if strings.Contains(out, "VERIF-ASSUME-FALSE") {
+		return false, "assumption false natively"
+	}
+	switch f.Kind {
+	case "assert":
+		if strings.Contains(out, "VERIF-ASSERT-FAIL "+f.ID) {
+			return true, ""
+		}
+		return false, "assertion held natively"
+	case "crash":
+		if strings.Contains(out, "VERIF-PANIC") || strings.Contains(out, "panic:") || strings.Contains(out, "fatal error:") {
+			return true, ""
+		}
+		return false, "no crash natively"
+	case "deadlock":
+		if timedOut || strings.Contains(out, "all goroutines are asleep") || strings.Contains(out, "test timed out") {
+			return true, ""
+		}
+		return false, "no hang natively"
+	}
+	return false, "unknown failure kind"
+}
+
+func (r *replayer) replaySample(tapePath string) (bool, string) {
+	if !r.build() {
+		return false, r.buildErr
+	}
+	out, timedOut := r.run(tapePath)
+	if timedOut {
+		return false, "native run timed out"
+	}
+	if strings.Contains(out, "VERIF-ASSERT-FAIL") {
+		os.WriteFile(strings.TrimSuffix(tapePath, ".json")+".native.txt", []byte(out), 0644)
+		return false, "assertion failed natively: " + lastLines(out, 3)
+	}
+	if strings.Contains(out, "VERIF-REPLAY-DIVERGED") {
+		return false, "tape diverged"
+	}
+	if !strings.Contains(out, "VERIF-REPLAY-DONE") {
+		os.WriteFile(strings.TrimSuffix(tapePath, ".json")+".native.txt", []byte(out), 0644)
+		return false, "native run did not finish: " + lastLines(out, 3)
+	}
+	return true, ""
+}
+
+func (r *replayer) cleanup() {
+	if r.work != "" {
+		os.RemoveAll(r.work)
+	}
+}
+
+// cmdReplay re-runs a recorded counterexample natively and prints the outcome.
+func cmdReplay(args []string) int {
+	if len(args) < 1 {
+		fmt.Fprintln(os.Stderr, "usage: symgo replay <file>")
+		return 2
+	}
+	b, err := os.ReadFile(args[0])
+	if err != nil {
+		fmt.Fprintln(os.Stderr, err)
+		return 2
+	}
+	var rf replayFile
+	if err := json.Unmarshal(b, &rf); err != nil {
+		fmt.Fprintln(os.Stderr, err)
+		return 2
+	}
+	l, err := load([]string{rf.Pkg}, "")
+	if err != nil {
+		fmt.Fprintln(os.Stderr, err)
+		return 2
+	}
+	j := Job{Pkg: rf.Pkg, Func: rf.Func, Params: rf.Params}
+	dir := filepath.Join(verifDir(), "replays", rf.Property)
+	os.MkdirAll(dir, 0755)
+	rp := newReplayer(j, l.pkgs[rf.Pkg].Pkg.Name(), dir)
+	defer rp.cleanup()
+	if !rp.build() {
+		fmt.Println(rp.buildErr)
+		return 2
+	}
+	out, timedOut := rp.run(args[0])
+	fmt.Print(out)
+	if timedOut {
+		fmt.Println("(timed out)")
+	}
+	if strings.Contains(out, "VERIF-ASSERT-FAIL") || strings.Contains(out, "VERIF-PANIC") || timedOut {
+		fmt.Printf("REPRODUCED property=%s assertion=%s\n", rf.Property, rf.Assert)
+		return 1
+	}
+	return 0
+}
+
+// ---------------------------------------------------------------- solver cross-check
+
+type crossCheck struct {
+	Scripts  int                `json:"scripts"`
+	Agree    int                `json:"agree"`
+	Disagree int                `json:"disagree"`
+	Timeouts int                `json:"timeouts"`
+	Seconds  map[string]float64 `json:"seconds"`
+}
+
+func runCrossCheck(reports []jobReport) *crossCheck {
+	xc := &crossCheck{Seconds: map[string]float64{}}
+	var scripts []string
+	for _, r := range reports {
+		scripts = append(scripts, r.Result.Scripts...)
+	}
+	if len(scripts) > 120 {
+		scripts = scripts[:120]
+	}
+	xc.Scripts = len(scripts)
+	type sv struct {
+		bin  string
+		args []string
+	}
+	solvers := []sv{{"z3-new", []string{"-in", "-T:60"}}, {"/usr/bin/z3", []string{"-in", "-T:60"}}, {"cvc5", []string{"--lang=smt2", "--tlimit=60000"}}}
+	var mu sync.Mutex
+	sem := make(chan struct{}, 16)
+	var wg sync.WaitGroup
+	for _, s := range scripts {
+		s := s
+		wg.Add(1)
+		sem <- struct{}{}
+		go func() {
+			defer func() { <-sem; wg.Done() }()
+			verdicts := map[string]bool{}
+			to := 0
+			for _, so := range solvers {
+				v, d := smt.RunScript(so.bin, so.args, s, 70*time.Second)
+				mu.Lock()
+				xc.Seconds[so.bin] += d.Seconds()
+				mu.Unlock()
+				if v == "sat" || v == "unsat" {
+					verdicts[v] = true
+				} else {
+					to++
+				}
+			}
+			mu.Lock()
+			if len(verdicts) > 1 {
+				xc.Disagree++
+			} else {
+				xc.Agree++
+			}
+			xc.Timeouts += to
+			mu.Unlock()
+		}()
+	}
+	wg.Wait()
+	return xc
+}
+
+// ---------------------------------------------------------------- evidence
+
+func writeEvidence(id, tier string, seed int, ck Check, reports []jobReport, wall time.Duration, violations int, inconclusive []string, xcs ...*crossCheck) {
+	states, transitions, validated := 0, 0, 0
+	queries, qunsat, qsat, qunk := 0, 0, 0, 0
+	solverS := 0.0
+	var samples []interface{}
+	funcs := map[string]int{}
+	var jobs []map[string]interface{}
+	proved := 0
+	for _, r := range reports {
+		res := r.Result
+		states += res.Paths
+		transitions += res.Decisions
+		validated += r.Agreed
+		queries += res.Queries
+		qunsat += res.QUnsat
+		qsat += res.QSat
+		qunk += res.QUnknown
+		solverS += res.SolverSeconds
+		proved += sumMap(res.AssertsProved) + sumMap(res.AssertsConc)
+		for f, n := range res.Funcs {
+			funcs[f] += n
+		}
+		for k, s := range res.Samples {
+			if k >= 2 {
+				break
+			}
+			samples = append(samples, map[string]interface{}{"job": r.Job, "input": tapeString(s.Tape, 300), "decisions": s.Decisions, "assertions_checked": s.Asserts, "reached": s.Reached})
+		}
+		for k, f := range res.Failures {
+			if k >= 3 {
+				break
+			}
+			samples = append(samples, map[string]interface{}{"job": r.Job, "counterexample_for": f.ID, "input": tapeString(f.Tape, 300)})
+		}
+		jobs = append(jobs, map[string]interface{}{
+			"job": r.Job, "harness": res.Harness, "bounds": r.Bounds, "params": r.Params, "paths": res.Paths, "paths_ended": res.PathsEnded,
+			"decisions": res.Decisions, "queries": res.Queries, "unsat": res.QUnsat, "sat": res.QSat, "unknown": res.QUnknown,
+			"solver_s": round2(res.SolverSeconds), "wall_s": round2(res.WallSeconds), "asserts_proved_by_solver": res.AssertsProved,
+			"asserts_true_concretely": res.AssertsConc, "reached": res.Reached, "failures": len(res.Failures), "instructions": res.Instrs,
+			"native_replays": r.Replayed, "native_agreed": r.Agreed, "note": r.Note, "max_goroutines": res.MaxGoroutines,
+		})
+	}
+	if len(samples) == 0 {
+		samples = append(samples, "no path produced inputs (see jobs)")
+	}
+	var fl []string
+	for f := range funcs {
+		fl = append(fl, f)
+	}
+	sort.Strings(fl)
+	if len(fl) > 150 {
+		fl = fl[:150]
+	}
+	if states == 0 {
+		states = 0
+	}
+	cov := map[string]interface{}{
+		"states": states, "transitions": transitions, "traces_validated_against_impl": validated, "samples": samples,
+		"explanation": "states = symbolic paths completed; transitions = solver/environment-decided decisions on them; every assertion on every path is decided by an SMT query over all values of the symbolic inputs inside the stated bounds",
+		"functions_encoded": fl, "jobs": jobs, "queries": queries, "queries_unsat": qunsat, "queries_sat": qsat, "queries_unknown": qunk,
+		"solver_seconds": round2(solverS), "assertion_instances_discharged": proved, "inconclusive": inconclusive, "solver": "z3 5.1.0 (z3-new -in), incremental, one process per worker",
+		"exhaustive": len(inconclusive) == 0,
+	}
+	if len(xcs) > 0 && xcs[0] != nil {
+		cov["solver_cross_check"] = xcs[0]
+	}
+	ev := map[string]interface{}{
+		"property_id": id, "tier": tier, "seed": seed, "level": ck.Level, "coverage": cov, "assumptions": ck.Assumptions,
+		"wall_s": round2(wall.Seconds()), "violations": violations,
+	}
+	if ck.Level == "" {
+		ev["level"] = "model_checking"
+	}
+	b, _ := json.MarshalIndent(ev, "", " ")
+	os.MkdirAll(filepath.Join(verifDir(), "evidence"), 0755)
+	os.WriteFile(filepath.Join(verifDir(), "evidence", id+".json"), b, 0644)
+}
+
+func round2(f float64) float64 { return float64(int64(f*100+0.5)) / 100 }
